@@ -9,6 +9,7 @@
 #include <sys/wait.h>
 #include <sys/stat.h>
 #include <unistd.h>
+#include <malloc.h>
 #include <fcntl.h>
 #include <poll.h>
 #include <signal.h>
@@ -45,6 +46,28 @@ struct Outcome
     Outcome o; o.ok = false; o.cls = c; o.detail = d; return o;
   }
 };
+
+// Heap contents as a controlled input: glibc fills every fresh (non-calloc) allocation with the chosen byte and every
+// freed block with its complement, so a member or buffer that is read before it was written shows the same, plan-chosen
+// garbage in every run instead of whatever the previous run left there.
+// The stack below the caller gets the complement byte (what freed heap blocks get), so that locals and temporaries of the
+// run - fresh twins, bystanders - do not start from whatever the runner, the previous run or another call path left there.
+inline int junkByte(int junk)
+{
+  static const int fill[5] = {0x00, 0x01, 0xFE, 0xA5, 0x7F};
+  return fill[((junk % 5) + 5) % 5];
+}
+__attribute__((noinline)) inline void junkStack(int junk, size_t bytes)
+{
+  volatile unsigned char * p = (volatile unsigned char *)__builtin_alloca(bytes);
+  std::memset((void *)p, (~junkByte(junk)) & 0xff, bytes);
+  __asm__ volatile ("" : : "r" (p) : "memory");
+}
+inline void junkHeap(int junk, size_t stackBytes = 96 * 1024)
+{
+  mallopt(M_PERTURB, (~junkByte(junk)) & 0xff);
+  junkStack(junk, stackBytes);
+}
 
 struct Slot;
 inline Slot * gSlot = nullptr;
@@ -782,6 +805,16 @@ inline Options parseOptions(int argc, char ** argv)
 template<class Prop>
 int simMain(int argc, char ** argv)
 {
+  // glibc's per-thread cache hands blocks back without the M_PERTURB fill (and with its own list pointers in them): switch
+  // it off, which can only be done through the environment at process start, so re-execute once with the tunable set.
+  {
+    const char * t = getenv("GLIBC_TUNABLES");
+    if ((!t || !strstr(t, "glibc.malloc.tcache_count=0")) && !getenv("VERIF_NO_REEXEC")) {
+      std::string v = (t && *t) ? std::string(t) + ":glibc.malloc.tcache_count=0" : "glibc.malloc.tcache_count=0";
+      setenv("GLIBC_TUNABLES", v.c_str(), 1); setenv("VERIF_NO_REEXEC", "1", 1);
+      execv("/proc/self/exe", argv);
+    }
+  }
   setvbuf(stdout, nullptr, _IOLBF, 0);
   Options o = parseOptions(argc, argv);
   Prop p;
